@@ -596,6 +596,7 @@ class Lab:
         self.scan_versions(before)
         # the recorded state the command starts from (first existing copy), for transition oracles
         self.content_before = None
+        self.content_before_cmd = len(self.history) + 1      # index (1-based) of the command this snapshot precedes
         for cp in self.content_paths():
             if os.path.isfile(cp):
                 self.content_before = _slurp(cp)
